@@ -22,9 +22,10 @@ func TestReplay(t *testing.T) { ev.Replay(t) }
 // counting is a BiGraph that counts adjacency queries, so that a
 // non-terminating algorithm is cut off (the property claims termination).
 type counting struct {
-	out, in [][]int
-	calls   int
-	budget  int
+	out, in                          [][]int
+	outFlat, inFlat, outCopy, inCopy []int
+	calls                            int
+	budget                           int
 }
 
 func (g *counting) NumNodes() int { return len(g.out) }
@@ -37,18 +38,46 @@ func (g *counting) tick() {
 func (g *counting) Out(i int) []int { g.tick(); return g.out[i] }
 func (g *counting) In(i int) []int  { g.tick(); return g.in[i] }
 
+// newCounting stores the graph the way compact graph types do (the library's own multigraph,
+// DomTree): every out-list and every in-list is a window of ONE flat array, so a list's spare
+// capacity is the next node's list - an append to a returned list would overwrite it. A copy
+// of both arrays is kept; intact() compares.
 func newCounting(adj [][]int) *counting {
 	n := len(adj)
-	g := &counting{out: adj, in: make([][]int, n)}
+	preds := make([][]int, n)
 	e := 0
 	for u := range adj {
 		for _, v := range adj[u] {
-			g.in[v] = append(g.in[v], u)
+			preds[v] = append(preds[v], u)
 			e++
 		}
 	}
+	flatten := func(lists [][]int) ([][]int, []int) {
+		flat := make([]int, 0, e+1)
+		off := make([]int, n+1)
+		for i, l := range lists {
+			off[i] = len(flat)
+			flat = append(flat, l...)
+		}
+		off[n] = len(flat)
+		flat = append(flat, -424242) // sentinel behind the last list
+		out := make([][]int, n)
+		for i := range out {
+			out[i] = flat[off[i]:off[i+1]]
+		}
+		return out, flat
+	}
+	g := &counting{}
+	g.out, g.outFlat = flatten(adj)
+	g.in, g.inFlat = flatten(preds)
+	g.outCopy, g.inCopy = append([]int(nil), g.outFlat...), append([]int(nil), g.inFlat...)
 	g.budget = 1000 * (n + e + 1) * (n + e + 1)
 	return g
+}
+
+// intact reports whether the graph's storage is as it was built.
+func (g *counting) intact() bool {
+	return fmt.Sprint(g.outFlat) == fmt.Sprint(g.outCopy) && fmt.Sprint(g.inFlat) == fmt.Sprint(g.inCopy)
 }
 
 // reachSkip is breadth-first reachability from root avoiding the node skip.
@@ -315,6 +344,9 @@ func domCheck(adj [][]int, root int) (nt bool, classes []string, err error) {
 	}
 	if parallel {
 		classes = append(classes, "parallel-edges")
+	}
+	if !g.intact() {
+		return false, nil, fmt.Errorf("the calls for root %d wrote into the graph's adjacency storage: out %v -> %v, in %v -> %v", root, g.outCopy, g.outFlat, g.inCopy, g.inFlat)
 	}
 	// The same graph value is then asked about other roots (what was unreachable becomes the
 	// flow graph): the answers must be those of the definition again, whatever the earlier
